@@ -40,7 +40,7 @@ def _rough():
 def charnock_case(draw):
     form = draw(st.sampled_from(["scalar", "ndarray", "ndarray", "dataarray", "ladder"]))
     if form == "scalar":
-        U = [draw(log_uniform(0.1, 80.0))]
+        U = [draw(st.one_of(log_uniform(0.1, 80.0), log_uniform(0.1, 80.0), st.sampled_from([0.1, 80.0]), fl(60.0, 80.0)))]
     elif form == "ladder":
         u0 = draw(log_uniform(0.1, 20.0))
         n = draw(st.integers(2, 12))
@@ -50,7 +50,8 @@ def charnock_case(draw):
     else:
         n = draw(st.integers(1, 12))
         U = [draw(st.one_of(log_uniform(0.1, 80.0), st.just(float("nan")))) if draw(st.integers(0, 4)) == 0
-             else draw(log_uniform(0.1, 80.0)) for _ in range(n)]
+             else draw(st.one_of(log_uniform(0.1, 80.0), log_uniform(0.1, 80.0), st.sampled_from([0.1, 80.0]), fl(60.0, 80.0)))
+             for _ in range(n)]
     return {"form": form, "U": U, "alpha": draw(st.one_of(st.just(0.012), fl(0.005, 0.04))),
             "visc": draw(st.sampled_from([0.0, 0.0, 0.11])) if draw(st.booleans()) else draw(fl(0.0, 0.3))}
 
@@ -105,7 +106,10 @@ def run_charnock(c):
 
 
 def fixed_charnock():
-    return [{"form": "scalar", "U": [10.0], "alpha": 0.012, "visc": 0.0},
+    # the corners of the stated domain (U in [0.1, 80], Charnock constant in [0.005, 0.04], with / without viscous term)
+    corners = [{"form": form, "U": [u] if form == "scalar" else [u, 3.0, u], "alpha": a, "visc": v}
+               for form in ("scalar", "ndarray") for u in (0.1, 80.0) for a in (0.005, 0.04) for v in (0.0, 0.11, 0.3)]
+    return corners + [{"form": "scalar", "U": [10.0], "alpha": 0.012, "visc": 0.0},
             {"form": "scalar", "U": [0.1], "alpha": 0.012, "visc": 0.11},
             {"form": "ndarray", "U": [0.1, 5.0, float("nan"), 80.0], "alpha": 0.012, "visc": 0.0},
             {"form": "dataarray", "U": [3.0, 30.0], "alpha": 0.03, "visc": 0.11}]
